@@ -5,7 +5,7 @@ import ApdVerif.Model.Basic
 Written from the property text and the General Decimal Arithmetic definition of
 rounding — not from the algorithm in round.go.  The exact value is a signed
 rational `num/den × 10^e10`; everything is integer arithmetic so that the driver
-can evaluate it on the implementation's outputs.  `Spec/Rounding.lean` relates
+can evaluate it on the implementation's outputs.  `Spec/Rational.lean` + `Props/Rational.lean` relate
 it to `ℚ`.
 -/
 namespace Apd.Oracle
